@@ -7,6 +7,7 @@ import (
 	"go/constant"
 	"go/token"
 	"go/types"
+	"strings"
 	"math/big"
 
 	"golang.org/x/tools/go/ssa"
@@ -664,6 +665,24 @@ func (fr *Frame) typeAssert(in *ssa.TypeAssert) Val {
 	if _, isI := in.AssertedType.Underlying().(*types.Interface); isI {
 		f := vc.declFun("implements_"+vc.typeName(in.AssertedType), []string{"Int"}, "Bool")
 		ok = and(not(eq(x.L[0], "0")), "("+f+" "+x.L[0]+")")
+		// a closed source interface: which of its implementors satisfy the asserted interface is a static fact,
+		// and the dynamic type is one of them (the closed-world reading interface dispatch already uses)
+		if ai, isAI := in.AssertedType.Underlying().(*types.Interface); isAI {
+			if impls := vc.implementors(in.X.Type()); len(impls) > 0 {
+				var member []string
+				for _, T := range impls {
+					tag := vc.typeTag(T)
+					member = append(member, eq(x.L[0], tag))
+					if types.Implements(T, ai) {
+						vc.assume(fr.curR, "("+f+" "+tag+")")
+					} else {
+						vc.assume(fr.curR, not("("+f+" "+tag+")"))
+					}
+				}
+				member = append(member, eq(x.L[0], "0"))
+				vc.assume(fr.curR, "(or "+strings.Join(member, " ")+")")
+			}
+		}
 		if types.Identical(in.X.Type(), in.AssertedType) || types.AssignableTo(in.X.Type(), in.AssertedType) {
 			ok = not(eq(x.L[0], "0"))
 		}
